@@ -46,7 +46,8 @@ def _layouts(tier):
     L.append(("ps[f1,p0,f0]-V", cm.world(S2, [{"kind": "ps", "ce": 0, "members": ["f1", "p0", "f0"], "level": "V"}], comp)))
     L.append(("envPF+own", cm.world(S2, [{"kind": "env", "env": "e0", "order": "PF", "level": "V"},
                                          {"kind": "own", "sub": "f1", "level": "V"}], comp)))
-    L.append(("ps[f0,f1]-M", cm.world(S2, [{"kind": "ps", "ce": 0, "members": ["f0", "f1"], "level": "M"}], comp)))
+    # Matrix level: contents range over an open set of valid states (no zero populations), see backend.density("hermphys")
+    L.append(("ps[f0,f1]-M", cm.world(S2, [{"kind": "ps", "ce": 0, "members": ["f0", "f1"], "level": "M", "param": "hermphys"}], comp)))
     # both modes populated up to level 2 (total photon number 4)
     S3 = cm.subs(2, 0, [3, 3])
     L.append(("own-LL22", cm.world(S3, [{"kind": "own", "sub": "f0", "level": "L", "label": 2},
@@ -59,6 +60,8 @@ def cases(tier):
     out = []
     for lid, w in _layouts(tier):
         for order in (("f0", "f1"), ("f1", "f0")):
+            if tier == "quick" and lid == "own33-VV" and order == ("f1", "f0"):
+                continue  # (2 minutes; the other operand order of this layout runs in the quick tier)
             out.append({"id": f"bs/{lid}/{','.join(order)}", "what": "bs", "world": w, "operands": list(order)})
     for arm in ("f0", "f1"):
         for src in ("f0", "f1"):
